@@ -1,5 +1,6 @@
 """C17 - MD6 digests equal the specification for every size, mode, key and message."""
 from mc.engine import Sub, InternalError
+from mc.checks.firstuse import firstuse_sub
 from mc.common import ramp, expander
 from mc.refs import md6 as RM
 
@@ -227,8 +228,22 @@ def selftest():
         raise InternalError('reference self-test failed: %r' % (e,))
 
 
+PROP_ = 'C17'
+
+
+def fu_targets():
+    m = expander(700, 3)
+    t = {}
+    for (d, L, kl, bl) in ((256, 64, 0, None), (224, 0, 8, None), (512, 1, 0, 5597), (160, 64, 64, None)):
+        key = keyof(kl)
+        t['md6 d=%d L=%d keylen=%d bitlen=%s' % (d, L, kl, bl)] = ((lambda d, L, key, bl: lambda: mk(d, key, L, SHAPE_ROUNDS)(m) if bl is None else mk(d, key, L, SHAPE_ROUNDS)(m, bitlen=bl))(d, L, key, bl),
+                                                               RM.md6(d, m, bl, key=key, L=L, r=SHAPE_ROUNDS))
+    t['md6 default-rounds'] = (lambda: mk(256, b'', 64, None)(b'abc'), RM.md6(256, b'abc'))
+    return t
+
+
 def subchecks():
-    return [
+    return [firstuse_sub(PROP_, fu_targets, every=2),
         Sub('digest-sizes', pts_d, run_d, engine='P', bound='every d in 1..512 (quick: every 5th + boundary sizes) on a 3-byte message, tree and sequential mode, 12 rounds'),
         Sub('shapes', pts_shapes, run_shapes, engine='P',
             bound='L in {0,1,2,3,64} x key length {0,1,8,63,64} x message byte length in {0..3, 383..385, 511..513, 767..769, 1023..1025, 1535..1537, 2047..2049, 5, 16, 17-, 64+, 65 leaf blocks} (quick: subset above 17 leaves / for odd key lengths) x d in 9 (4) sizes at lengths 3 and 513, 12 rounds'),
